@@ -200,7 +200,7 @@ func (l *alist) encs() []string {
 }
 
 var (
-	intVals = []int64{0, 1, -1, 7, 255, 65, 1114111, math.MinInt64, math.MaxInt64,
+	intVals = []int64{0, 1, -1, 7, 255, 65, 1114111, 0x1F600 /* printable, 4 UTF-8 bytes */, math.MinInt64, math.MaxInt64,
 		// beyond 32 bits, with and without a valid code point in the low 32 bits
 		1<<32 + 65, 1 << 32, -(1 << 32) + 65, 1<<40 + 0x4e16, math.MaxInt32 + 1, math.MinInt32 - 1}
 	fltVals = []float64{0, math.Copysign(0, -1), 1, 1.5, -2.5, 1e21, 5e-324, math.MaxFloat64,
@@ -245,9 +245,9 @@ func initAlphabets() {
 		}
 		return
 	}
-	// ints: zero, positive, negative, beyond fmt's 1e6 cap; then values Go
+	// ints: zero, positive, negative, beyond the 68-byte scratch buffer of the number formatters, beyond fmt's 1e6 cap; then values Go
 	// rejects for '*' (BADWIDTH/BADPREC) because they are not ints.
-	alphaS = pick("int:0", "int:3", "int:-4", "int:2000000", "float:2.5", `string:"2"`, "bool:true")
+	alphaS = pick("int:0", "int:3", "int:-4", "int:70", "int:2000000", "float:2.5", `string:"2"`, "bool:true")
 	alphaVS = append(alphaVS, alphaV...)
 	for _, a := range alphaS {
 		dup := false
